@@ -759,6 +759,37 @@ func U%[1]d() {
 `, u, body("+="), body("-="), a, b))
 		return p
 	}},
+	{"many_itabs", false, func(g *G, u int) string {
+		// hundreds of distinct (interface, concrete type) pairs in one unit: conversions made before and after the
+		// run-time itab table has grown must agree (equality of interface-typed array elements, interface map keys)
+		p := g.pkgOrMain()
+		nt, ni := g.n(14, 26, "ntypes"), g.n(14, 26, "nifaces")
+		var b strings.Builder
+		fmt.Fprintf(&b, "type mb%d struct{}\n\n", u)
+		for i := 0; i < ni; i++ {
+			fmt.Fprintf(&b, "func (mb%d) M%d() int { return %d }\n", u, i, i)
+		}
+		for i := 0; i < ni; i++ {
+			fmt.Fprintf(&b, "type mi%d_%d interface{ M%d() int }\n", u, i, i)
+		}
+		for t := 0; t < nt; t++ {
+			fmt.Fprintf(&b, "type mt%d_%d struct {\n\tmb%d\n\tid int\n}\n", u, t, u)
+		}
+		fmt.Fprintf(&b, "\nfunc U%d() {\n\tearly := [1]mi%d_0{mt%d_0{id: 7}}\n\tkeys := map[mi%d_1]int{mt%d_1{id: 1}: 11}\n\tvar anyEarly any = early\n\tsum := 0\n", u, u, u, u, u)
+		for t := 0; t < nt; t++ {
+			for i := 0; i < ni; i++ {
+				fmt.Fprintf(&b, "\tsum += mi%d_%d(mt%d_%d{id: %d}).M%d()\n", u, i, u, t, t, i)
+			}
+		}
+		fmt.Fprintf(&b, "\tlate := [1]mi%d_0{mt%d_0{id: 7}}\n\tvar anyLate any = late\n\tkeys[mt%d_1{id: 1}] += 100\n\tv, ok := keys[mi%d_1(mt%d_1{id: 1})]\n", u, u, u, u, u)
+		fmt.Fprintf(&b, "\tmism := 0\n")
+		for t := 0; t < nt; t += 3 {
+			fmt.Fprintf(&b, "\tif any([1]mi%d_2{mt%d_%d{id: 3}}) != any([1]mi%d_2{mt%d_%d{id: 3}}) {\n\t\tmism++\n\t}\n", u, u, t, u, u, t)
+		}
+		fmt.Fprintf(&b, "\tprintln(\"#%d\", sum, early == late, anyEarly == anyLate, len(keys), v, ok, mism)\n}\n", u)
+		g.add(p, b.String())
+		return p
+	}},
 	{"structs_arrays_copy", false, func(g *G, u int) string {
 		p := g.pkgOrMain()
 		a := g.n(1, 9, "a")
